@@ -287,5 +287,108 @@ pub fn run(ctx: &mut Ctx) -> &'static str {
             ctx.fail(idx, "speed/associated-units", format!("{} has distance {} time {}", su, ad, at));
         }
     }
-    "every ordered unit pair of the six families x magnitudes 1e-9..1e9 (random mantissa, both signs, 0 and 1), every unit combination of create_time/create_speed/create_energy with positive, zero and negative arguments; non-trivial = distinct case with differing units or a constructor call; distinct by full case text"
+    // the rest of speed_unit.rs: From<(DistanceUnit, TimeUnit)> (17 of its 20 arms are `todo!()`: the call
+    // panics, which is the recorded outcome, not a violation — nothing in the workspace calls it),
+    // from_str, Display, max_american_highway_speed
+    for du in D.iter() {
+        for tu in T.iter() {
+            let Some(idx) = ctx.begin() else { continue };
+            let r = std::panic::catch_unwind(|| SpeedUnit::from((*du, *tu)));
+            let out = match &r {
+                Ok(su) => format!("ok {}", su),
+                Err(_) => "panic".to_string(),
+            };
+            ctx.emit(idx, format!("sufrom {} {}", du, tu), out);
+            ctx.count(if r.is_ok() { "speed_unit_from_pair_ok" } else { "speed_unit_from_pair_todo_panic" });
+            ctx.nontrivial(&format!("sufrom {} {}", du, tu));
+            if let Ok(su) = r {
+                // a speed unit made from a pair is the unit of that pair
+                if format!("{}", su.associated_distance_unit()) != format!("{}", du) || format!("{}", su.associated_time_unit()) != format!("{}", tu) {
+                    ctx.fail(idx, "speed_unit/from-pair-inconsistent", format!("({}, {}) gave {}", du, tu, su));
+                }
+            }
+        }
+    }
+    {
+        let names: Vec<String> = S.iter().map(|u| u.to_string()).collect();
+        let mut texts: Vec<String> = names.clone();
+        for t in ["", "kph", "mph", "KilometersPerHour", "kilometers_per_hour ", " miles_per_hour", "meters_per_second\"", "\"", "miles\tper_hour", "meters", "hours", "kilometers per hour", "Miles_Per_Hour", "mètres_par_seconde"] {
+            texts.push(t.to_string());
+        }
+        let extra = ctx.n(8, 200);
+        for k in 0..texts.len() + extra {
+            let Some(idx) = ctx.begin() else { continue };
+            let mut rng = Rng::for_case(ctx.seed, 9, idx as u64);
+            let text = if k < texts.len() {
+                texts[k].clone()
+            } else {
+                // a name with one character changed, dropped or doubled
+                let mut cs: Vec<char> = names[rng.below(names.len())].chars().collect();
+                let i = rng.below(cs.len());
+                match rng.below(3) {
+                    0 => cs[i] = *rng.pick(&['a', 'x', '_', 'S', '-', ' ', '1']),
+                    1 => {
+                        cs.remove(i);
+                    }
+                    _ => cs.insert(i, cs[i]),
+                }
+                cs.into_iter().collect()
+            };
+            let r = std::panic::catch_unwind(|| text.parse::<SpeedUnit>());
+            let out = match &r {
+                Ok(Ok(su)) => format!("ok {}", su),
+                Ok(Err(_)) => "err".to_string(),
+                Err(_) => "panic".to_string(),
+            };
+            ctx.emit(idx, format!("sustr {}", crate::jsonproto::hex(&text)), out);
+            ctx.count(match &r {
+                Ok(Ok(_)) => "speed_unit_from_str_ok",
+                Ok(Err(_)) => "speed_unit_from_str_err",
+                Err(_) => "speed_unit_from_str_panic",
+            });
+            ctx.nontrivial(&format!("sustr {}", text));
+            match r {
+                Ok(Ok(su)) => {
+                    // Display and from_str are inverse
+                    if su.to_string() != text {
+                        ctx.fail(idx, "speed_unit/from-str-not-display", format!("{:?} parsed as {}", text, su));
+                    }
+                }
+                Ok(Err(_)) => {
+                    if names.contains(&text) {
+                        ctx.fail(idx, "speed_unit/from-str-rejects-name", format!("{:?}", text));
+                    }
+                }
+                Err(_) => ctx.fail(idx, "speed_unit/from-str-panic", format!("{:?}", text)),
+            }
+        }
+    }
+    for su in S.iter() {
+        let Some(idx) = ctx.begin() else { continue };
+        let v = su.max_american_highway_speed().as_f64();
+        ctx.emit(idx, format!("maxhw {}", su), fbits(v));
+        // Speed's own accessors agree with each other
+        let sp = su.max_american_highway_speed();
+        // (Display prints the Debug form of the wrapped float, `InternalFloat(75.0)`: it shows the number)
+        if sp.to_f64() != v || !format!("{}", sp).contains(&format!("{:?}", v)) || sp.cmp(&Speed::new(v + 1.0)) != std::cmp::Ordering::Less || sp.cmp(&sp) != std::cmp::Ordering::Equal {
+            ctx.fail(idx, "speed/accessors", format!("{} to_f64 {} display {}", v, sp.to_f64(), sp));
+        }
+        let ratio: Speed = (Distance::new(v), Time::new(1.0)).into();
+        if ratio.as_f64() != v {
+            ctx.fail(idx, "speed/from-distance-time", format!("{} / 1 gave {}", v, ratio));
+        }
+        ctx.nontrivial(&format!("maxhw {}", su));
+        // one and the same physical speed (75 mph) in every unit, within the property's 0.1 percent
+        let expect = 75.0 * si_s(&SpeedUnit::MilesPerHour) / si_s(su);
+        if !close(v, expect, TOL + EPS) {
+            ctx.fail(idx, "speed_unit/highway-speed", format!("{} in {} but 75 mph is {}", v, su, expect));
+        }
+        for sv in S.iter() {
+            let w = su.convert(&Speed::new(v), sv).as_f64();
+            if !close(w, sv.max_american_highway_speed().as_f64(), TOL + EPS) {
+                ctx.fail(idx, "speed_unit/highway-speed-inconsistent", format!("{} {} converts to {} {} but that unit's value is {}", v, su, w, sv, sv.max_american_highway_speed()));
+            }
+        }
+    }
+    "every ordered unit pair of the six families x magnitudes 1e-9..1e9 (random mantissa, both signs, 0 and 1), every unit combination of create_time/create_speed/create_energy with positive, zero and negative arguments; non-trivial = distinct case with differing units or a constructor call; distinct by full case text; plus every (distance unit, time unit) pair through SpeedUnit::from (17 arms are todo!(): the panic is the recorded outcome), SpeedUnit::from_str on names, near-names and texts that are no JSON string, max_american_highway_speed of every unit"
 }
